@@ -392,7 +392,8 @@ def write_module(root, packages, fancy=True):
 
 
 # ------------------------------------------------------------------ seeded program generators
-def gen_flow(rng, name, max_tasks=4, features=None):
+def gen_flow(rng, name, max_tasks=4, features=None, plain=False):
+    """plain: only Params, Results, Concurrency and plain Tasks (the subset modifier mode supports, C20)."""
     features = features or {}
     ntasks = rng.randint(1, max_tasks)
     units, params, results = [], [], []
@@ -407,16 +408,16 @@ def gen_flow(rng, name, max_tasks=4, features=None):
     for t in range(1, ntasks + 1):
         nin = min(len(avail), rng.choice([0, 1, 1, 2, 2]))
         ins = rng.sample(avail, nin)
-        nout = rng.choice([0, 1, 1, 1, 2])
+        nout = rng.choice([0, 1, 1, 1, 2]) if not plain else rng.choice([1, 1, 2])
         outs = []
         for _ in range(nout):
             ntypes += 1
             outs.append(ntypes)
         haserr = rng.random() < 0.6
         u = dict(id=t, kind="task", ins=ins, outs=outs, haserr=haserr, wantctx=rng.random() < 0.4, pred=0, task=0,
-                 fb=haserr and rng.random() < 0.35, invoke=not outs, instr=False, coll=0, len=0, withidx=False, end=0, nargs=0)
+                 fb=haserr and rng.random() < 0.35 and not plain, invoke=not outs, instr=False, coll=0, len=0, withidx=False, end=0, nargs=0)
         consumed.update(ins)
-        if avail and rng.random() < 0.35 or (not avail and rng.random() < 0.1):
+        if not plain and (avail and rng.random() < 0.35 or (not avail and rng.random() < 0.1)):
             pins = rng.sample(avail, min(len(avail), rng.choice([0, 1, 1, 2])))
             q = dict(id=100 + t, kind="pred", ins=pins, outs=[], haserr=False, wantctx=rng.random() < 0.3, pred=0, task=t,
                      fb=False, invoke=False, instr=False, coll=0, len=0, withidx=False, end=0, nargs=0)
@@ -441,7 +442,7 @@ def gen_flow(rng, name, max_tasks=4, features=None):
         else:
             results.append(ty)
     rng.shuffle(results)
-    leaves = rng.choice([0, 0, 1, 2])
+    leaves = rng.choice([0, 0, 1, 2]) if not plain else 0
     instr = leaves > 0 and rng.random() < 0.7
     for u in units:
         if u["kind"] == "task" and leaves > 0 and rng.random() < 0.6:
